@@ -26,7 +26,7 @@ def run(tier):
     chk = Check(PROP, tier)
     lean_ok = lean_gate(chk, THEOREMS)
     quick = tier == "quick"
-    n_gen = 60 if quick else 1000
+    n_gen = 180 if quick else 1500
     nmax = 4 if quick else 5
     cases = pipeline.load_corpus(PROP) + pipeline.generate_cases(n_gen, f"{PROP}-{tier}")
     tasks = []
